@@ -108,6 +108,7 @@ class Engine:
                 syn = getattr(node.func, "id", None) or getattr(node.func, "attr", None)
                 h = self.after_call.get((c.frames[-1].qual, syn))
             if h:
+                c.last_call_node = node
                 h(c, c.frames[-1], r)
         return r
 
